@@ -127,8 +127,9 @@ def main(argv=None):
     # assertion in the real build.
     if twin_for_validation is not None and not args.only:
         h = twin_for_validation["harness"]
-        tests, _ = K.concrete_playback(h, slot=0)
-        tests = [t for t in tests if "vacuity twin" in (t[1] or "")]
+        tests, _ = K.concrete_playback(h, slot=0, include_covers=True)
+        # the twin's own failing assertion, else any witness trace (every complete run ends in it)
+        tests = [t for t in tests if "vacuity twin" in (t[1] or "")] + [t for t in tests if t[0] == "cover"]
         if not tests:
             noverdict.append((h["name"], "twin trace validation: concrete playback produced no values"))
         else:
